@@ -1335,6 +1335,46 @@ def r_tal(d):
                 return {"confirmed": True, "scenario": "the context is not what it was before the expansion", "template": t,
                         "locals": [sorted(before_l), sorted(ctx.locals)], "stack depths": [depth_l, len(ctx.localStack), depth_r, len(ctx.repeatStack)],
                         "repeat": [sorted(before_r), sorted(ctx.repeatMap)]}
+    # ---- METAL: a fill-slot belongs to the nearest enclosing use-macro
+    lib = simpleTAL.compileHTMLTemplate('<html><div metal:define-macro="outer">O[<span metal:define-slot="body">obody</span>|<span metal:define-slot="foot">ofoot</span>]</div>'
+                                        '<p metal:define-macro="inner">I[<i metal:define-slot="body">ibody</i>|<i metal:define-slot="foot">ifoot</i>]</p></html>')
+    page = simpleTAL.compileHTMLTemplate('<html><div metal:use-macro="lib/macros/outer"><span metal:fill-slot="body"><p metal:use-macro="lib/macros/inner">'
+                                         '<i metal:fill-slot="foot"><q>Q</q></i></p></span></div></html>')
+    ctx = simpleTALES.Context()
+    ctx.addGlobal("lib", lib)
+    out = _io.StringIO()
+    page.expand(ctx, out)
+    doc = out.getvalue()
+    if not ("ofoot" in doc and "ifoot" not in doc and "ibody" in doc and "obody" not in doc and "<q>Q</q>" in doc and doc.index("I[") < doc.index("<q>Q</q>") < doc.index("ofoot")):
+        return {"confirmed": True, "scenario": "nested metal:use-macro: the inner fill-slot must fill the inner macro's slot, the outer macro's unfilled slot keeps its default", "output": doc}
+    # ---- the python: switch as the TAL file handler reads it from the configuration
+    import shutil as _sh, tempfile as _tf
+    import pygopherd.handlers.base as _hb
+    import pygopherd.handlers.HandlerMultiplexer as _hm
+    top = _tf.mkdtemp(prefix="pyvc-tal-", dir="/var/tmp")
+    try:
+        open(os.path.join(top, "page.html.tal"), "w").write('<html><p tal:content="python: open(%r, \'a\').write(\'x\') or \'RAN\'">static</p></html>' % os.path.join(top, "canary"))
+        for word, expect_run in (("false", False), ("no", False), ("off", False), ("0", False), ("False", False), ("true", True), ("1", True), ("yes", True)):
+            cfg = _config({})
+            cfg.set("pygopherd", "root", top)
+            if not cfg.has_section("handlers.tal.TALFileHandler"):
+                cfg.add_section("handlers.tal.TALFileHandler")
+            cfg.set("handlers.tal.TALFileHandler", "allowpythonpath", word)
+            cfg.set("handlers.HandlerMultiplexer", "handlers", "[tal.TALFileHandler, file.FileHandler]")
+            _hb.rootpath = None; _hm.rootpath = None; _hm.handlers = None
+            from pygopherd import initialization as _init, logger as _logger
+            _logger.log = lambda m: None
+            _init.init_mimetypes(cfg)
+            if os.path.exists(os.path.join(top, "canary")):
+                os.unlink(os.path.join(top, "canary"))
+            body, _l = _serve(b"/page.html.tal\r\n", cfg)
+            ran = os.path.exists(os.path.join(top, "canary")) or b"RAN" in body
+            if ran != expect_run:
+                return {"confirmed": True, "scenario": "allowpythonpath = %s in [handlers.tal.TALFileHandler]: python: expression %s" % (word, "was evaluated" if ran else "was not evaluated"),
+                        "response": repr(body[:200])}
+    finally:
+        _sh.rmtree(top, ignore_errors=True)
+        _hb.rootpath = None; _hm.rootpath = None; _hm.handlers = None
     # ---- TAL-free documents: equivalent output, fixed point
     for docsrc in ('<html><head><title>T &amp; U</title></head><body class="x y"><p>a <b>b</b> &lt;c&gt;</p><br><img src="i.png" alt="q&quot;q"><ul><li>1<li>2</ul></body></html>',
                    '<div><p>unclosed<p>again</div><input type="text" value="a&amp;b">'):
